@@ -78,7 +78,8 @@ CLAIMS = {
          "8.C05", "loop-invariant proofs over the lexer model (text, escapes, comment skip, round trip) + parser/evaluator theorems + extracted reference scanner as oracle"),
  "C06": ("proof", "End-to-end theorem on the loader and evaluator model (Proofs/LayoutRefine.v): for every layout tree - reserves at any "
          "nesting depth inside @if / @elseif / @else / @each / @for, within the loader's depth budget - and every assignment of inserts "
-         "(block form, expression form, none), a page that declares @use of that layout and has no components loads to the layout alone and "
+         "(block form, expression form, none), a page that declares @use of that layout - with or without component uses in its insert bodies (their blocks are attached, uses "
+         "nested in slot bodies included) - loads to the layout alone and "
          "Template.String renders exactly what the big-step semantics of Spec/Template.v gives for the layout tree with the inserts put "
          "into its reserves (fill), with the data of the call: the body rendered at the reserve's place, the value of the expression "
          "form, nothing for an unfilled reserve; an error where the semantics says error. Composed from: the loader's rewriting is fill up "
@@ -89,8 +90,7 @@ CLAIMS = {
          "semantics only decides whether it answers): in the list of nodes where a reserve stands, a reserve filled by a block insert gives "
          "the same result as the insert's nodes spliced in its place (for inserts that do not end in a loose @break/@continue), the "
          "expression form is the print statement, an unfilled reserve is nothing. The equation against the implementation (String(page) = "
-         "EvaluateString of the layout text with reserves textually replaced) is decided on generated trees; duplicate inserts, and pages "
-         "that also use components, are decided there too.", "8.C06",
+         "EvaluateString of the layout text with reserves textually replaced) is decided on generated trees; duplicate inserts are decided there too.", "8.C06",
          "refinement theorem (evaluator vs big-step semantics with reserve nodes) + loader rewriting = fill (induction on depth) + correspondence + substitution oracle on generated trees"),
  "C07": ("proof", "Evaluation, end to end (Proofs/TemplateRefine.v, Proofs/LoadedRender.v): the big-step semantics of Spec/Template.v has "
          "component uses (arguments in key order, each evaluated at the place of use and bound in a fresh scope on top of the scopes of that "
